@@ -46,6 +46,70 @@ def check_graph(ctx, spec, model_line, idx):
             ctx.broke('correspondence', 'Frames.load vs remote_pickle.loads', f'graph={F.model_graph(spec)} model={model_line} impl={res["status"]} {res.get("error")} sets={res.get("sets")}')
 
 
+class Recorder:
+    """opt-in class whose state (plain and remote) is whatever `VALUE` says; __setstate__ records what it was given"""
+    VALUE = None
+
+    def __getstate__(self, remote=False):
+        return type(self).VALUE
+
+    def __setstate__(self, state):
+        self.got = ('set', state)
+
+
+class RecorderNoSet:
+    """the same without a __setstate__ (dict states only)"""
+    VALUE = None
+
+    def __getstate__(self, remote=False):
+        return type(self).VALUE
+
+
+def _plain(v):
+    """ordered dictionaries compare equal to plain ones: the kind of mapping handed to __setstate__ is not observable by =="""
+    if isinstance(v, dict):
+        return {k: _plain(x) for k, x in v.items()}
+    if isinstance(v, tuple):
+        return tuple(_plain(x) for x in v)
+    if isinstance(v, list):
+        return [_plain(x) for x in v]
+    return v
+
+
+def unusual_states(ctx):
+    """states that are falsy, None, or not a dict: the object must come back exactly as standard unpickling restores it
+    (pickle protocol >= 2 calls __setstate__ for every state that is not None)"""
+    import pickle
+    from pyworkers import remote_pickle
+    values = [{}, 0, (), '', False, None, {'a': 1}, [1], (0,), 7]
+    holders = {'top': lambda o: o, 'in-list': lambda o: [o, 1], 'attr-of-plain': lambda o: type('H', (), {})}
+    for cls in (Recorder, RecorderNoSet):
+        for v in values:
+            if cls is RecorderNoSet and not isinstance(v, dict) and v is not None:
+                continue      # (standard pickle cannot restore a non-dict state without __setstate__ either)
+            for where in ('top', 'in-list', 'in-dict'):
+                cls.VALUE = v
+                o = cls()
+                g = o if where == 'top' else [o, 1] if where == 'in-list' else {'x': o}
+
+                def pick(loaded):
+                    x = loaded if where == 'top' else loaded[0] if where == 'in-list' else loaded['x']
+                    return (type(x).__name__, sorted((k, repr(_plain(val))) for k, val in vars(x).items()))
+                try:
+                    want = pick(pickle.loads(pickle.dumps(g, protocol=4)))
+                except BaseException as e:  # noqa
+                    want = ('std-error', type(e).__name__)
+                try:
+                    got = pick(remote_pickle.loads(remote_pickle.dumps(g)))
+                except BaseException as e:  # noqa
+                    got = ('error', type(e).__name__)
+                ctx.case(('unusual-state', cls.__name__, repr(v), where), True,
+                         sample={'case': 'falsy / None / non-dict state', 'class': cls.__name__, 'state': repr(v), 'where': where, 'restored': got} if (where, repr(v)) == ('top', '{}') else None)
+                if got != want:
+                    ctx.fail(f'restore-differs:{"falsy" if not v and v is not None else "other"}-state', f'{cls.__name__} with state {v!r} ({where}): remote_pickle restores {got}, standard pickle restores {want}',
+                             {'kind': 'unusual_state', 'class': cls.__name__, 'state': repr(v), 'where': where})
+
+
 def main(ctx: Ctx):
     ctx.assumptions += [
         'E-P1: pickle calls the recreate hook of an object before loading its state and its __setstate__ after everything inside the state was restored (CPython pickle; exercised by every correspondence case)',
@@ -64,9 +128,17 @@ def main(ctx: Ctx):
     model = ctx.model(['frames %s {}' % F.model_graph(g) for g in graphs])
     for i, g in enumerate(graphs):
         check_graph(ctx, g, model[i] if model else None, i)
+    unusual_states(ctx)
 
 
 def replay(case):
+    if case.get('kind') == 'unusual_state':
+        class C:
+            def case(self, *a, **k): pass
+            def fail(self, sig, what, desc): print('FAIL', sig, what)
+        unusual_states(C())
+        print('done')
+        return
     def tup(x):
         return tuple(tup(y) for y in x) if isinstance(x, list) and x and isinstance(x[0], str) else ([tup(y) for y in x] if isinstance(x, list) else x)
     spec = tup(case['graph'])
